@@ -208,7 +208,9 @@ def build_doc(pages: List[Dict[str, Any]], rng=None) -> Tuple[bytes, bytes]:
         c = b""
         cp = b""
         for i, img in enumerate(pg["images"]):
-            payload = IL.encode_chain(bytes.fromhex(img["data"]), img.get("filters", []), rng)
+            # inline payloads are encoded deterministically: fix_inline() checked exactly these bytes for the marker
+            payload = IL.encode_chain(bytes.fromhex(img["data"]), img.get("filters", []),
+                                      None if img["place"] == "inline" else rng)
             pre = b"BT /F1 9 Tf %d %d Td (%s) Tj ET\n" % (20 + 5 * i, 700 - 11 * i, ("p%d" % i).encode())
             if img["place"] == "inline":
                 body = IL.inline_image_bytes(img, payload, id_ws=img.get("id_ws", " ").encode("latin-1"),
@@ -408,7 +410,7 @@ def run_export(ctx: C.Ctx) -> None:
     lines: List[str] = []
     impl: List[str] = []
     inputs: List[Any] = []
-    n = ctx.n(220, 6000)
+    n = ctx.n(1200, 20000)
     idx = 0
     # systematic part: every kind x every row-byte residue x unfiltered/filtered
     for kind in ("gray8", "rgb8", "bit1"):
@@ -434,7 +436,7 @@ def run_export(ctx: C.Ctx) -> None:
                 pre.pop(rng.randrange(1, len(pre)))    # a gap in the numbering
         check_export_direct(ctx, imgs, pre, lines, impl, inputs)
     # off-domain shapes, for the tie only (format choice branches: raw .img, Pillow paths)
-    for i in range(ctx.n(40, 800)):
+    for i in range(ctx.n(200, 3000)):
         img = gen_image(rng, idx, force_kind="gray8")
         idx += 1
         img["domain"] = False
@@ -613,7 +615,7 @@ def fix_inline(rng, img) -> None:
 
 def run_pipeline_cases(ctx: C.Ctx) -> None:
     rng = ctx.rng
-    for i in range(ctx.n(45, 1500)):
+    for i in range(ctx.n(250, 4000)):
         if not ctx.time_left():
             break
         pages = gen_pages(rng, 1000 + 10 * i)
@@ -820,14 +822,14 @@ def run_inline(ctx: C.Ctx) -> None:
     lines: List[str] = []
     impl: List[str] = []
     inputs: List[Any] = []
-    for i in range(ctx.n(700, 30000)):
+    for i in range(ctx.n(5000, 100000)):
         if not ctx.time_left():
             break
         wild = i % 5 == 4
         case = gen_inline_case(rng, not wild)
         check_inline_case(ctx, case, not wild, lines, impl, inputs)
     # ASCII85 end marker `~>` (the tie only: the scanner is the same function with another target)
-    for i in range(ctx.n(150, 5000)):
+    for i in range(ctx.n(600, 10000)):
         body = bytes(rng.choice(b"~>ab!z \n\rEI") for _ in range(rng.choice([0, 1, 3, 9, 40])))
         content = body + rng.choice([b"~>\n", b"~> ", b"~>\r\n", b"~>", b"~~>\n", b"~>x~>\t"]) + b"EI Q"
         bs = rng.choice([1, 2, 3, 7, 4096])
@@ -853,7 +855,7 @@ def run_small(ctx: C.Ctx) -> None:
             ctx.fail(C.Failure("align32 is not the next multiple of 4", {"mode": "align32", "x": x},
                                (x + 3) // 4 * 4, I.align32(x), {"area": "align32"}))
     # reader twin on damaged files: both readers must take the same decision
-    for i in range(ctx.n(150, 5000)):
+    for i in range(ctx.n(600, 10000)):
         img = gen_image(rng, i, force_kind=rng.choice(["gray8", "rgb8", "bit1"]), force_w=rng.randint(1, 9))
         img["h"] = rng.randint(1, 3)
         img["data"] = gen_samples(rng, img["h"] * IL.row_bytes(img["kind"], img["w"])).hex()
